@@ -116,7 +116,7 @@ func TestZZReplay(t *testing.T) {
 		if err := rewriteRedirects(repo, rf.Package, tbl, ov); err != nil {
 			return false, "redirect rewrite: " + err.Error()
 		}
-		if err := rewriteCallSites(repo, []string{rf.Package}, tbl, rf.Package, ov); err != nil {
+		if err := rewriteCallSites(repo, append([]string{rf.Package}, rf.RewritePkgs...), tbl, rf.Package, ov); err != nil {
 			return false, "call-site rewrite: " + err.Error()
 		}
 	}
